@@ -31,11 +31,15 @@ type Phase struct {
 // objects, the phases are executed in list order (so calls to different containers interleave phase-wise).
 // Inserted values are 1,2,3,... in call order over all containers (every value number is used once), except that
 // every ZeroEvery-th insertion (if > 0) inserts the zero value of the element type.
+//
+// Kinds (optional, cases with several containers): container i is of kind Kinds[i mod len(Kinds)] instead of Kind -
+// containers of different element types (and Queue next to Stack) used alternately.
 type PCase struct {
-	Kind      string  `json:"kind"`
-	NC        int     `json:"nc,omitempty"`
-	Quiet     bool    `json:"quiet,omitempty"`
-	ZeroEvery int     `json:"zero_every,omitempty"`
+	Kind      string   `json:"kind"`
+	Kinds     []string `json:"kinds,omitempty"`
+	NC        int      `json:"nc,omitempty"`
+	Quiet     bool     `json:"quiet,omitempty"`
+	ZeroEvery int      `json:"zero_every,omitempty"`
 	// Procs > 0: the case runs under runtime.GOMAXPROCS(Procs) (restored afterwards). Only units without
 	// parallel replicas generate it (the setting is global to the process).
 	Procs  int     `json:"procs,omitempty"`
@@ -60,13 +64,17 @@ func RunPhases(c PCase) pbt.Outcome {
 	}
 	engs := make([]engine, nc)
 	for i := range engs {
-		tag := c.Kind
-		if nc > 1 {
-			tag = fmt.Sprintf("%s#%d", c.Kind, i)
+		kind := c.Kind
+		if len(c.Kinds) > 0 {
+			kind = c.Kinds[i%len(c.Kinds)]
 		}
-		engs[i] = newEngine(c.Kind, tag, c.Quiet)
+		tag := kind
+		if nc > 1 {
+			tag = fmt.Sprintf("%s#%d", kind, i)
+		}
+		engs[i] = newEngine(kind, tag, c.Quiet)
 		if engs[i] == nil {
-			return pbt.Fail("malformed case: unknown kind %q", c.Kind)
+			return pbt.Fail("malformed case: unknown kind %q", kind)
 		}
 		if m := engs[i].check(-1, "fresh container", false); m != "" {
 			return pbt.Fail("%s", m)
@@ -180,7 +188,15 @@ func RunPhases(c PCase) pbt.Outcome {
 	}
 	out := pbt.Outcome{Evals: s.evals}
 	out.NonTrivial = len(c.Phases) >= 3 && s.maxLen >= 33 && s.removals >= 33 && (s.slidHigh > 0 || s.drainsRefilled > 0)
-	out.Labels = append(out.Labels, "kind="+kindLabel(c.Kind), fmt.Sprintf("containers=%d", nc))
+	if len(c.Kinds) > 0 {
+		out.Labels = append(out.Labels, "containers-of-different-kinds")
+		for i := 0; i < nc && i < len(c.Kinds); i++ {
+			out.Labels = append(out.Labels, "kind="+kindLabel(c.Kinds[i]))
+		}
+	} else {
+		out.Labels = append(out.Labels, "kind="+kindLabel(c.Kind))
+	}
+	out.Labels = append(out.Labels, fmt.Sprintf("containers=%d", nc))
 	if c.Quiet {
 		out.Labels = append(out.Labels, "quiet")
 	}
@@ -328,7 +344,7 @@ func genPhases(t *rapid.T, nc, budget int) []Phase {
 		removed[c] += k
 		calls += n
 	}
-	gcCase := rapid.IntRange(0, 39).Draw(t, "gc") == 0
+	const gcCase = false // collections between phases are generated by C16.big only (see C16.gc for the reason)
 	np := rapid.IntRange(3, 14).Draw(t, "phases")
 	for p := 0; p < np && calls < budget; p++ {
 		c := 0
@@ -474,7 +490,7 @@ func zeroEvery(t *rapid.T) int {
 
 const rulePhases = "phase histories of up to ~12000 calls (3000 for elements wider than 128 bytes): 3..14 phases among fill n, fill until the number of values ever inserted is a multiple of a block B (+0..2 blocks, +d), " +
 	"fill up to a size, drain n (up to 2 calls beyond empty), drain down to a remainder (1..4, size/2, size/4, size/8, B, B/4, all +d), drain until the number of values ever removed is a multiple of B, drain to empty + 0..3 calls on the empty container, " +
-	"sliding window (n rounds of m in / m out, m in 1,2,3,7), slide until the number inserted is a multiple of B, and (one case in forty) runtime.GC() + small allocations between phases; quantities n are 1..8, k*B+d (k 1..5), 2^i+d (i 2..11), B*j/8+d, 1..200 or 1..1500, d in -2..2 (mostly 0), B a power of two 4..1024 fixed per case " +
+	"sliding window (n rounds of m in / m out, m in 1,2,3,7), slide until the number inserted is a multiple of B; quantities n are 1..8, k*B+d (k 1..5), 2^i+d (i 2..11), B*j/8+d, 1..200 or 1..1500, d in -2..2 (mostly 0), B a power of two 4..1024 fixed per case " +
 	"(two cases in three) or drawn per quantity; nine cases in ten end by draining everything (each value is compared on its way out); values are unique ids, optionally every 2nd/7th/64th/100th the zero value; one case in eight is quiet; "
 
 const ruleNTPhases = "; non-trivial = at least 3 phases, more than 32 values inside at some point, more than 32 removals, and insertions after removals (window moved or refill after drain-to-empty)"
@@ -508,10 +524,38 @@ var specPhasesStack = pbt.Register(&pbt.Spec[PCase]{
 
 // Two or three containers of the same type used alternately: state must not leak between objects
 // (package-level pools, shared spare blocks, shared backing arrays).
+var pairKinds = append(append([]string{}, queueKinds...), kindsOf("stack-nil", "stack-cap")...)
+
+// sameSizeElems: element types of one word / two words / three words, with and without pointers - what a
+// (hypothetical) shared pool of nodes or buffers keyed by size would confuse.
+var sameSizeElems = [][]string{
+	{"int", "int-edge", "float64", "celsius", "*int", "*int-own", "func", "map"},
+	{"string", "string-own", "any"},
+	{"triple", "padded", "[]int", "[3]int32"},
+	{"quad", "holder"},
+}
+
 var specPair = pbt.Register(&pbt.Spec[PCase]{
-	Property: "C16", Name: "C16.pair", Rule: "rapid: 2..3 independent containers of the same kind (Queue or Stack, any element type) used alternately phase by phase, each against its own model, value ids unique over all of them; " +
-		rulePhases + rule + ruleNTPhases,
-	Gen: genPCase(append(append([]string{}, queueKinds...), kindsOf("stack-nil", "stack-cap")...), 3),
+	Property: "C16", Name: "C16.pair", Rule: "rapid: 2..3 independent containers used alternately phase by phase, each against its own model, value ids unique over all of them; two cases in three: all of the same kind " +
+		"(Queue or Stack, any element type); one in three: of different kinds - any element types, or element types of the same size with and without pointers (int/float64/*int/func/map, string/any, 3-word struct/[]int, ...), " +
+		"Queues only, Stacks only or mixed; " + rulePhases + rule + ruleNTPhases,
+	Gen: func(t *rapid.T) PCase {
+		c := genPCase(pairKinds, 3)(t)
+		if rapid.IntRange(0, 2).Draw(t, "mixed") != 0 {
+			return c
+		}
+		conts := rapid.SampledFrom([][]string{{"queue"}, {"stack-nil", "stack-cap"}, {"queue", "stack-nil", "stack-empty"}}).Draw(t, "containers")
+		elems := allElems
+		if rapid.Bool().Draw(t, "same-size") {
+			elems = rapid.SampledFrom(sameSizeElems).Draw(t, "size-class")
+		}
+		c.Kinds = nil
+		for i := 0; i < c.NC; i++ {
+			c.Kinds = append(c.Kinds, rapid.SampledFrom(conts).Draw(t, "container")+"/"+rapid.SampledFrom(elems).Draw(t, "elem"))
+		}
+		c.Kind = c.Kinds[0]
+		return c
+	},
 	Run: RunPhases, Quick: 2000, Thorough: 12000, Replicas: 4, ReplicaEvery: 8,
 })
 
